@@ -20,16 +20,15 @@ table `Generated.fileTypes`):
   permutation is unique (`sortStable_unique`), so any stable algorithm computes what `sortStable` computes.
 
 A typed slot stores `mesgdef.NewXxx(&mesg)` and emits `.ToMesg(options)`: the typed-message normalisation of C13.
-Its effect on the *content* of a message is outside this model (content is the opaque `dg`); its effect on the three
-candidate key fields is `normF` with the per-slot modes found by the probe. -/
+The layer is written once, generic in the representation of a message (`Carrier`), and instantiated twice:
+* `Msg` (this file): content is the opaque `dg`; the effect of the typed struct on the three candidate key fields is
+  `normF` with the per-slot modes found by the probe (used by the listener model and the digest family);
+* `Fit.Msg.Message` (`FileDefContent.lean`): real field lists; `Add` = `Typed.ofMesg`, `ToFIT` = `Typed.toMesg`, so the
+  effect of the typed struct is C13's `typedNormal` (theorem, not sampling). -/
 namespace Fit.FileDef
 open Generated
 
 def u32Invalid : Nat := 0xFFFFFFFF
-
-/-- value of field number `n` of a message, for the three numbers the model tracks -/
-def cand (m : Msg) (n : Nat) : TsF :=
-  if n = 1 then m.f1 else if n = 253 then m.f253 else if n = 254 then m.f254 else .absent
 
 /-- the field number `SortMessagesByTimestamp` reads for a message of number `num` -/
 def tsNum (num : Nat) : Nat :=
@@ -37,30 +36,139 @@ def tsNum (num : Nat) : Nat :=
   else if num = mesgNumSet then fieldNumSetTimestamp
   else fieldNumTimestamp
 
-/-- the sort key: `none` = no timestamp field (`f == nil`), otherwise `f.Value.Uint32()` -/
-def key (m : Msg) : Option Nat :=
-  match cand m (tsNum m.num) with
-  | .absent => none
-  | .u32 v => some v
-  | .other => some u32Invalid
-
 /-- `cmp(m1, m2) ≤ 0` of the comparator in filedef.go -/
 def keyLe : Option Nat → Option Nat → Bool
   | none, _ => true
   | some _, none => false
   | some a, some b => a ≤ b
 
-def le (a b : Msg) : Bool := keyLe (key a) (key b)
+def slotOf (T : FileType) (n : Nat) : Option Slot := T.slots.find? (fun s => s.num == n)
+
+/-- messages of this number replace each other -/
+def isSingle (T : FileType) (n : Nat) : Bool :=
+  match slotOf T n with
+  | some s => s.kind == .value || s.kind == .single
+  | none => false
+
+/-- messages of this number are not given back -/
+def isDropped (T : FileType) (n : Nat) : Bool :=
+  match slotOf T n with
+  | some s => s.kind == .dropped
+  | none => T.dropped.contains n
+
+/-- singleton kinds as DECLARED by the struct of the file type -/
+def isSingleDecl (T : FileType) (n : Nat) : Bool :=
+  match slotOf T n with
+  | some s => s.decl == .value || s.decl == .single
+  | none => false
+
+/-- prefix numbers: file_id, developer_data_id, field_description -/
+def isPrefixNum (n : Nat) : Bool := n == mesgNumFileId || n == mesgNumDeveloperDataId || n == mesgNumFieldDescription
+
+/-- multiset equality of two lists on a projection, as a Boolean (for `--prop`) -/
+def countEq {α} [BEq α] (a b : List α) : Bool :=
+  a.length == b.length && a.all (fun x => a.count x == b.count x)
+
+/-! ### The file-type layer, generic in the representation of a message
+
+`Add` / `ToFIT` / `SortMessagesByTimestamp` look at a message only through its number and its sort key, pass it through
+its typed struct (`norm`), and make up one message themselves (the zero-valued file_id, `dflt`). Everything below is
+written once for any representation `μ` with these four operations (`Carrier`), and used twice: with the abstract
+messages `Msg` (number, candidate key fields, opaque content digest — the listener model and the digest family) and
+with real protocol messages `Fit.Msg.Message` (`FitModel/FileDefContent.lean`: `norm` = C13's `typedNormal`). -/
+
+structure Carrier (μ : Type) where
+  /-- `mesg.Num` -/
+  num : μ → Nat
+  /-- the sort key: `none` = no timestamp field (`f == nil`), otherwise `f.Value.Uint32()` -/
+  key : μ → Option Nat
+  /-- effect of `mesgdef.NewXxx(&m)` … `.ToMesg(options)` on a message that file type `T` stores in a typed slot
+  (the identity on the other messages) -/
+  norm : FileType → μ → μ
+  /-- what `mesgdef.Xxx{}.ToMesg(options)` gives: the message of a value slot to which none was added -/
+  dflt : FileType → Nat → μ
+
+/-- the two facts the theorems need of a carrier: the typed struct keeps the message number, and the made-up message
+has the number of its slot -/
+structure Carrier.Lawful {μ : Type} (C : Carrier μ) : Prop where
+  norm_num : ∀ T m, C.num (C.norm T m) = C.num m
+  dflt_num : ∀ T n, C.num (C.dflt T n) = n
+
+namespace G
+variable {μ : Type} (C : Carrier μ)
+
+def le (a b : μ) : Bool := keyLe (C.key a) (C.key b)
 
 /-- insert `x` in front of an already sorted list whose elements all arrived after `x` -/
-def insertSorted (x : Msg) : List Msg → List Msg
+def insertSorted (x : μ) : List μ → List μ
   | [] => [x]
-  | y :: ys => if le x y then x :: y :: ys else y :: insertSorted x ys
+  | y :: ys => if le C x y then x :: y :: ys else y :: insertSorted x ys
 
 /-- the stable sort by `key` (insertion sort from the right) -/
-def sortStable (l : List Msg) : List Msg := l.foldr insertSorted []
+def sortStable (l : List μ) : List μ := l.foldr (insertSorted C) []
 
-def slotOf (T : FileType) (n : Nat) : Option Slot := T.slots.find? (fun s => s.num == n)
+def addN (T : FileType) (f : List μ) (m : μ) : List μ :=
+  if isDropped T (C.num m) then f
+  else if isSingle T (C.num m) then f.filter (fun x => C.num x != C.num m) ++ [m]
+  else f ++ [m]
+
+/-- `f.Add(mesg)` -/
+def add (T : FileType) (f : List μ) (m : μ) : List μ := addN C T f (C.norm T m)
+
+/-- `filedef.NewXxx(mesgs...)` -/
+def build (T : FileType) (msgs : List μ) : List μ := msgs.foldl (add C T) []
+
+def slotMsgs (T : FileType) (f : List μ) (s : Slot) : List μ :=
+  let l := f.filter (fun m => C.num m == s.num)
+  if s.kind == .value && l.isEmpty then [C.dflt T s.num] else l
+
+def unrelated (T : FileType) (f : List μ) : List μ := f.filter (fun m => (slotOf T (C.num m)).isNone)
+
+/-- the groups `ToFIT` appends one after the other -/
+def groups (T : FileType) (f : List μ) : List (List μ) := T.slots.map (slotMsgs C T f) ++ [unrelated C T f]
+
+/-- the sequence before sorting -/
+def emission (T : FileType) (f : List μ) : List μ := (groups C T f).flatten
+
+/-- `f.ToFIT(options).Messages` -/
+def toFIT (T : FileType) (f : List μ) : List μ :=
+  ((groups C T f).take T.sortFrom).flatten ++ sortStable C ((groups C T f).drop T.sortFrom).flatten
+
+/-! #### Specification side (what the property demands; used by the theorems and by `--prop`) -/
+
+/-- the same with the kinds the probe observed (equal to `keepLastDecl` when the table is well formed: `TableOK`) -/
+def keepLast (T : FileType) : List μ → List μ
+  | [] => []
+  | m :: rest =>
+    if isSingle T (C.num m) && rest.any (fun x => C.num x == C.num m) then keepLast T rest else m :: keepLast T rest
+
+/-- **Specification**: the messages a file must keep: all of them, except that of the messages whose number the struct
+stores in a single-valued field (`mesgdef.FileId`, `*mesgdef.Activity`, …) only the last one survives -/
+def keepLastDecl (T : FileType) : List μ → List μ
+  | [] => []
+  | m :: rest =>
+    if isSingleDecl T (C.num m) && rest.any (fun x => C.num x == C.num m) then keepLastDecl T rest
+    else m :: keepLastDecl T rest
+
+/-- `l` is sorted by `le` (every earlier element ≤ every later one) -/
+def sortedB : List μ → Bool
+  | [] => true
+  | x :: xs => xs.all (le C x) && sortedB xs
+
+end G
+
+/-! ### The abstract messages (`Msg`: number, candidate key fields, tag, content digest) -/
+
+/-- value of field number `n` of a message, for the three numbers the model tracks -/
+def cand (m : Msg) (n : Nat) : TsF :=
+  if n = 1 then m.f1 else if n = 253 then m.f253 else if n = 254 then m.f254 else .absent
+
+/-- the sort key: `none` = no timestamp field (`f == nil`), otherwise `f.Value.Uint32()` -/
+def key (m : Msg) : Option Nat :=
+  match cand m (tsNum m.num) with
+  | .absent => none
+  | .u32 v => some v
+  | .other => some u32Invalid
 
 def normF : FMode → TsF → TsF
   | .time, .u32 v => if v = u32Invalid then .absent else .u32 v
@@ -76,84 +184,30 @@ def normT (T : FileType) (m : Msg) : Msg :=
   | some s => norm s m
   | none => m
 
-/-- messages of this number replace each other -/
-def isSingle (T : FileType) (n : Nat) : Bool :=
-  match slotOf T n with
-  | some s => s.kind == .value || s.kind == .single
-  | none => false
-
-/-- messages of this number are not given back -/
-def isDropped (T : FileType) (n : Nat) : Bool :=
-  match slotOf T n with
-  | some s => s.kind == .dropped
-  | none => T.dropped.contains n
-
-/-- abstract state of a file struct: the stored messages in arrival order -/
-abbrev File := List Msg
-
-def addN (T : FileType) (f : File) (m : Msg) : File :=
-  if isDropped T m.num then f
-  else if isSingle T m.num then f.filter (fun x => x.num != m.num) ++ [m]
-  else f ++ [m]
-
-/-- `f.Add(mesg)` -/
-def add (T : FileType) (f : File) (m : Msg) : File := addN T f (normT T m)
-
-/-- `filedef.NewXxx(mesgs...)` -/
-def build (T : FileType) (msgs : List Msg) : File := msgs.foldl (add T) []
-
 /-- what `mesgdef.FileId{}.ToMesg()` gives: the file_id of a file to which none was added -/
 def defaultMsg (T : FileType) (n : Nat) : Msg :=
   { num := n, f1 := T.d1, f253 := T.d253, f254 := T.d254, tag := 0, dg := T.defaultDg, ft := 0 }
 
-def slotMsgs (T : FileType) (f : File) (s : Slot) : List Msg :=
-  let l := f.filter (fun m => m.num == s.num)
-  if s.kind == .value && l.isEmpty then [defaultMsg T s.num] else l
+/-- the abstract messages as a carrier -/
+def absC : Carrier Msg := { num := Msg.num, key := key, norm := normT, dflt := defaultMsg }
 
-def unrelated (T : FileType) (f : File) : List Msg := f.filter (fun m => (slotOf T m.num).isNone)
+/-- abstract state of a file struct: the stored messages in arrival order -/
+abbrev File := List Msg
 
-/-- the groups `ToFIT` appends one after the other -/
-def groups (T : FileType) (f : File) : List (List Msg) := T.slots.map (slotMsgs T f) ++ [unrelated T f]
-
-/-- the sequence before sorting -/
-def emission (T : FileType) (f : File) : List Msg := (groups T f).flatten
-
+abbrev le (a b : Msg) : Bool := G.le absC a b
+abbrev sortStable (l : List Msg) : List Msg := G.sortStable absC l
+abbrev addN (T : FileType) (f : File) (m : Msg) : File := G.addN absC T f m
+/-- `f.Add(mesg)` -/
+abbrev add (T : FileType) (f : File) (m : Msg) : File := G.add absC T f m
+/-- `filedef.NewXxx(mesgs...)` -/
+abbrev build (T : FileType) (msgs : List Msg) : File := G.build absC T msgs
+abbrev emission (T : FileType) (f : File) : List Msg := G.emission absC T f
 /-- `f.ToFIT(nil).Messages` -/
-def toFIT (T : FileType) (f : File) : List Msg :=
-  ((groups T f).take T.sortFrom).flatten ++ sortStable ((groups T f).drop T.sortFrom).flatten
+abbrev toFIT (T : FileType) (f : File) : List Msg := G.toFIT absC T f
+abbrev keepLast (T : FileType) (l : List Msg) : List Msg := G.keepLast absC T l
+abbrev keepLastDecl (T : FileType) (l : List Msg) : List Msg := G.keepLastDecl absC T l
+abbrev sortedB (l : List Msg) : Bool := G.sortedB absC l
 
 def fileTypeOf (b : Nat) : Option FileType := fileTypes.find? (fun T => T.ftype == b)
-
-/-! ### Specification side (what the property demands; used by the theorems and by `--prop`) -/
-
-/-- the same with the kinds the probe observed (equal to `keepLastDecl` when the table is well formed: `TableOK`) -/
-def keepLast (T : FileType) : List Msg → List Msg
-  | [] => []
-  | m :: rest => if isSingle T m.num && rest.any (fun x => x.num == m.num) then keepLast T rest else m :: keepLast T rest
-
-/-- singleton kinds as DECLARED by the struct of the file type -/
-def isSingleDecl (T : FileType) (n : Nat) : Bool :=
-  match slotOf T n with
-  | some s => s.decl == .value || s.decl == .single
-  | none => false
-
-/-- **Specification**: the messages a file must keep: all of them, except that of the messages whose number the struct
-stores in a single-valued field (`mesgdef.FileId`, `*mesgdef.Activity`, …) only the last one survives -/
-def keepLastDecl (T : FileType) : List Msg → List Msg
-  | [] => []
-  | m :: rest =>
-    if isSingleDecl T m.num && rest.any (fun x => x.num == m.num) then keepLastDecl T rest else m :: keepLastDecl T rest
-
-/-- prefix numbers: file_id, developer_data_id, field_description -/
-def isPrefixNum (n : Nat) : Bool := n == mesgNumFileId || n == mesgNumDeveloperDataId || n == mesgNumFieldDescription
-
-/-- `l` is sorted by `le` (every earlier element ≤ every later one) -/
-def sortedB : List Msg → Bool
-  | [] => true
-  | x :: xs => xs.all (le x) && sortedB xs
-
-/-- multiset equality of two lists on a projection, as a Boolean (for `--prop`) -/
-def countEq {α} [BEq α] (a b : List α) : Bool :=
-  a.length == b.length && a.all (fun x => a.count x == b.count x)
 
 end Fit.FileDef
